@@ -12,6 +12,7 @@ import sys
 import types
 
 import numpy as np
+from fractions import Fraction
 
 from .array import BOOL, C128, F64, FUNCS, SymArray, implements, obj, reported_dtype, sym_array, wrap, isnan_scalar
 from .ctx import EngineError, cur
@@ -212,6 +213,29 @@ def _svd_related(c, cache, M, k_keep, full, routine_name):
             if reported_dtype(M).kind == "c":
                 U2, V2 = _phase_freedom(c, M, U2, s1, V2, full)
             return U2, s1.copy(), V2
+    # Gram matrix of an earlier input: M == c * M1^H M1  ->  (V1, c*s1^2 (zero-padded), V1^H)   [M1 = U1 S1 V1^H]
+    if n == p:
+        for (k1, kk, ff), (U1, s1, V1) in list(cache.items()):
+            M1 = c.caches.get("svd_inputs", {}).get((k1, kk, ff))
+            if M1 is None or M1.ndim != 2 or M1.shape[1] != p or not ff or k_keep is not None or kk is not None:
+                continue
+            if obj(V1).shape != (p, p):
+                continue
+            try:
+                G = np.conjugate(M1).T @ M1
+            except Exception:
+                continue
+            n1 = M1.shape[0]
+            for cst in (Fraction(1), Fraction(1, max(1, n1 - 1)), Fraction(1, n1)):
+                if all(isinstance(a, Sym) and isinstance(b, Sym) and a.p.scale(cst) == b.p for a, b in zip(G.flat, Mo.flat)):
+                    s1o = obj(s1)
+                    sq = np.empty((p,), dtype=object)
+                    for l in range(p):
+                        sq[l] = (s1o[l] * s1o[l] * cst) if l < s1o.shape[0] else Sym.of(0)
+                    c.stub_log.append({"stub": routine_name, "shape": [n, p], "k": k_keep, "related": f"Gram matrix ({cst}) of an earlier input"})
+                    c.notes.append("SVD equivariance used: Gram matrix of an earlier input (right singular vectors of M are the eigenvectors of M^H M)")
+                    V1o = obj(V1)
+                    return SymArray(np.conjugate(SymArray(V1o, reported_dtype(V1))).a.T.copy(), reported_dtype(V1)), SymArray(sq, F64), V1.copy()
     # scalar multiple by one fresh variable
     newvars = set()
     for v in Mo.flat:
